@@ -334,6 +334,13 @@ static int insertNode(KSI_TreeBuilder *builder, KSI_TreeNode *node, int at) {
 		res = insertNode(builder, root, at + 1);
 		if (res != KSI_OK) {
 			KSI_pushError(builder->ctx, res, NULL);
+			/* Undo the join: only the temporary parent is released below, its
+			 * children are handed back to the stack and to the caller. */
+			root->leftChild = NULL;
+			root->rightChild = NULL;
+			pSlot->parent = NULL;
+			node->parent = NULL;
+			builder->stack[at] = pSlot;
 			goto cleanup;
 		}
 
